@@ -2,7 +2,7 @@ Require Extraction.
 Require Import ExtrOcamlBasic.
 From LH Require Import Base.Bytes Base.Res Model.Classes Spec.ClassClosure.
 Extraction "c15model.ml" extract_anchor
-  c15_fixed_variant fuel_of class_list member_names model_members
+  c15_fixed_variant c15_split_fixed fuel_of class_list class_list_v member_names model_members model_members_v
   leaf_arr leaf_val leaf_key resolve detect resolve_fx resolve_model cyclic_alias
   sub_key follow complete_at define_at for_value for_pairs_key
-  reach_exec members_exec define_exec index_exec pairs_key_exec shadow_free.
+  reach_exec members_exec define_exec member_step_exec index_exec pairs_key_exec shadow_free.
